@@ -79,7 +79,7 @@ if TYPE_CHECKING:
     from .file import _GitFile
 
 from .errors import PackedRefsException, RefFormatError
-from .file import GitFile, ensure_dir_exists
+from .file import FileLocked, GitFile, ensure_dir_exists
 from .objects import ZERO_SHA, ObjectID, git_line, valid_hexsha
 
 Ref = NewType("Ref", bytes)
@@ -1049,6 +1049,19 @@ class DiskRefsContainer(RefsContainer):
           new_refs: A mapping of ref names to targets; if a target is None that
             means remove the ref
         """
+        self._add_packed_refs(new_refs, unless_changed=False)
+
+    def _add_packed_refs(
+        self, new_refs: Mapping[Ref, ObjectID | None], unless_changed: bool
+    ) -> None:
+        """Add the given refs as packed refs.
+
+        Args:
+          new_refs: A mapping of ref names to targets; if a target is None that
+            means remove the ref
+          unless_changed: Keep the loose file of a ref whose value no longer
+            equals the packed target (it was updated concurrently)
+        """
         if not new_refs:
             return
 
@@ -1064,24 +1077,50 @@ class DiskRefsContainer(RefsContainer):
                     if ref == HEADREF:
                         raise ValueError("cannot pack HEAD")
 
-                    # remove any loose refs pointing to this one -- please
-                    # note that this bypasses remove_if_equals as we don't
-                    # want to affect packed refs in here
-                    with suppress(OSError):
-                        os.remove(self.refpath(ref))
-
                     if target is not None:
                         packed_refs[ref] = target
                     else:
                         packed_refs.pop(ref, None)
 
                 write_packed_refs(f, packed_refs, self._peeled_refs)
+
+            # Only now that the new packed-refs file is in place, remove the
+            # loose refs it supersedes: if we are interrupted in between, the
+            # loose refs still take precedence and nothing is lost.
+            for ref, target in new_refs.items():
+                self._remove_superseded_loose_ref(ref, target, unless_changed)
         finally:
             # Do not stat the path and associate that identity with the data
             # just written: another writer can replace packed-refs after the
             # lock is released but before the stat. Reload on the next access
             # instead.
             self._invalidate_packed_refs_cache()
+
+    def _remove_superseded_loose_ref(
+        self, name: Ref, target: ObjectID | None, unless_changed: bool
+    ) -> None:
+        """Remove the loose file of a ref that was just packed (or unpacked).
+
+        This bypasses remove_if_equals as we don't want to affect packed refs
+        in here. The loose file is only removed while holding the lock of the
+        ref and, with unless_changed, only if it still has the packed value.
+        """
+        filename = self.refpath(name)
+        try:
+            f = GitFile(filename, "wb")
+        except (OSError, FileLocked):
+            # Nothing there, or somebody else is updating it: leave it alone.
+            return
+        try:
+            if (
+                not unless_changed
+                or target is None
+                or self.read_loose_ref(name) == target
+            ):
+                with suppress(OSError):
+                    os.remove(filename)
+        finally:
+            f.abort()
 
     def get_peeled(self, name: Ref) -> ObjectID | None:
         """Return the cached peeled value of a ref, if available.
@@ -1485,7 +1524,7 @@ class DiskRefsContainer(RefsContainer):
                     pass
 
         if refs_to_pack:
-            self.add_packed_refs(refs_to_pack)
+            self._add_packed_refs(refs_to_pack, unless_changed=True)
 
 
 def _split_ref_line(line: bytes) -> tuple[ObjectID, Ref]:
